@@ -999,16 +999,31 @@ package rueidis
 //@   modifies *
 //@   loop 1: invariant [C27 every-embedded-push-is-dispatched-and-every-other-element-kept] rangeindex >= -1 && i >= 0 && calls(handlePush, 2) + i == atentry(calls(handlePush, 2)) + rangeindex + 1
 //@   assert [C27 an-embedded-push-is-dispatched-with-its-own-content] at handlePush#2: v.typ == '>' && arg1 == v.values()
+// subscriber ids come from a counter that only grows (an id is never handed out twice while its holder may still be registered)
+//@ func subs.Subscribe #c26
+//@   modifies *
+//@   assert [C26 a-new-subscriber-gets-the-next-id] at AddUint64: arg1 == 1
+//@ func subs.Close #c26
+//@   modifies *
+//@   ensures [C26 only-subscribing-moves-the-id-counter] calls(AddUint64) == 0
+// a lost connection takes the dedicated hook registration out of the pipe before closing its channel (so it is closed once)
+//@ func pipe._background #c26
+//@   modifies *
+//@   assert [C26 the-hook-registration-is-swapped-out-for-the-empty-one] at Swap: arg1 == emptypshks
+//@   assert [C26 the-hook-registration-is-taken-out-before-the-pending-calls-are-failed] at NewErrorResult: calls(Swap) == 1
 //@ func subs.Confirm #c26
 //@   modifies *
+//@   ensures [C26 only-subscribing-moves-the-id-counter] calls(AddUint64) == 0
 //@   assert [C26 every-subscriber-callback-of-the-channel-gets-the-confirmation] at fn: arg0 == sub
 //@ func subs.Unsubscribe #c26
 //@   modifies *
+//@   ensures [C26 only-subscribing-moves-the-id-counter] calls(AddUint64) == 0
 //@   assert [C26 every-subscriber-callback-of-the-channel-gets-the-unsubscription] at fn: arg0 == sub
 //@   assert [C26 every-subscriber-of-the-unsubscribed-channel-is-removed] at remove: arg0 == s && arg1 == id
 //@   assert [C26 the-unsubscribed-channel-is-forgotten] at delete: arg1 == sub.Channel
 //@ func subs.remove #c26
 //@   modifies *
+//@   ensures [C26 only-subscribing-moves-the-id-counter] calls(AddUint64) == 0
 //@   assert [C26 a-removed-subscriber-leaves-every-channel-it-listened-on] at delete#1: arg1 == id
 //@   assert [C26 a-removed-subscribers-stream-is-ended-once] at close: arg0 == sb.ch && calls(close) == 0
 //@   assert [C26 a-removed-subscriber-is-forgotten] at delete#2: arg1 == id
